@@ -65,7 +65,7 @@ ANCHORS = [(_P, q) for q in (
 REQUIRED = [
     (_P, "affine_coords", "apoints = apoints.swapaxes(-1, -2)"),
     (_P, "affine_coords", "_chart_index = np.argmax("),
-    (_P, "affine_coords", "\"points don't lie in the specified affine chart\""),
+    (_P, "affine_coords", "if chart_index is not None:"),
     (_P, "projective_coords", "coords = coords.swapaxes(-1, -2)"),
     (_P, "projective_coords", "indices[chart_index:] += 1"),
     (_P, "Subspace.intersect", "p1, p2 = utils.broadcast_match(self.proj_data,"),
@@ -419,6 +419,9 @@ def hook_intersect(call):
             return mon.skip("a spanning set is (nearly) dependent")
         if lin.transversality(A[i], B[j]) < 0.02:
             return mon.skip("pair not transverse (margin < 0.02)")
+        st = lin.sing(np.concatenate([A[i], B[j]], axis=0))
+        if st[0] > 1e6 or st[n - 1] < 1e-6:
+            return mon.skip("scale of the spanning vectors outside the kernel routine's rank tolerance")
     fld = "complex" if (np.iscomplexobj(A) or np.iscomplexobj(B)) else "real"
     cls = "%s/%s/%s" % (fld, bc, "composite" if batch else "unit")
     case = {"function": "Subspace.intersect", "self": A if A.size <= 300 else A.shape,
@@ -508,7 +511,10 @@ def hook_eigenvector(call):
             else:
                 return mon.skip("requested eigenvalue neither in the spectrum nor away from it")
         info[ix] = m
-    fld = "complex-matrix" if np.iscomplexobj(R) else "real-matrix"
+        if np.max(np.abs(w.imag)) > 1e-9 * m:
+            info["nonreal"] = True
+    fld = "complex-matrix" if np.iscomplexobj(R) else (
+        "real-matrix-complex-spectrum" if info.get("nonreal") else "real-matrix-real-spectrum")
     lcls = "any" if lam is None else ("complex-eigenvalue" if abs(lam.imag) > 0 else "real-eigenvalue")
     cls = "%s/%s/%s" % (fld, lcls, "composite" if batch else "unit")
     case = {"function": "Transformation.eigenvector", "proj_data": R if R.size <= 300 else R.shape,
@@ -655,7 +661,7 @@ def rand_scalars(rng, shape, kind):
 
 def rand_affine(rng, shape, d, field):
     if field == "integer":
-        return rng.integers(-9, 10, size=shape + (d,)).astype(float)
+        return rng.integers(-9, 10, size=shape + (d,))
     a = rng.normal(size=shape + (d,)) * 10 ** rng.uniform(-1, 1)
     if field in ("complex", "imaginary-chart"):
         a = a + 1j * rng.normal(size=shape + (d,))
@@ -691,51 +697,64 @@ def wl_charts(run, rng, idx):
             err = float(np.max(np.abs(got - want) / (1.0 + np.abs(want)))) if got.size else 0.0
             return mon.judge(err, tol, "chart-roundtrip/%s/%s" % (what, field),
                              "%s does not give back the affine coordinates" % what, case)
-        try:
-            P = projective.Point(a.copy(), chart_index=c)
-            X = np.asarray(P.proj_data)
-            mon.require(bool(np.all(X[..., c] == 1)), "chart-roundtrip/chart-slot-not-1/%s" % field,
-                        "Point(a, chart_index=%d) has chart slot != 1" % c, case)
-            judge("Point.affine_coords", P.affine_coords(chart_index=c), a)
-            Y = X * lam
-            Q = projective.Point(Y.copy())
-            judge("rescaled Point.affine_coords", Q.affine_coords(chart_index=c), a, 1e-11)
-            judge("module affine_coords(row)", projective.affine_coords(Y.copy(), chart_index=c), a, 1e-11)
-            # column layout needs >= 2 axes
-            if shape:
-                Yc = np.swapaxes(Y, -1, -2)
-                got = projective.affine_coords(Yc.copy(), chart_index=c, column_vectors=True)
+        def g(thunk):
+            """run a library call; a GeometryError raised by affine_coords is
+            judged by its postcondition (valid point rejected) -> None here."""
+            try:
+                return thunk()
+            except Exception as e:
+                if not _lib_exc_from(e, "projective.affine_coords"):
+                    raise
+                return None
+        P = projective.Point(a.copy(), chart_index=c)
+        X = np.asarray(P.proj_data)
+        mon.require(bool(np.all(X[..., c] == 1)), "chart-roundtrip/chart-slot-not-1/%s" % field,
+                    "Point(a, chart_index=%d) has chart slot != 1" % c, case)
+        got = g(lambda: P.affine_coords(chart_index=c))
+        if got is not None:
+            judge("Point.affine_coords", got, a)
+        Y = X * lam
+        Q = projective.Point(Y.copy())
+        got = g(lambda: Q.affine_coords(chart_index=c))
+        if got is not None:
+            judge("rescaled Point.affine_coords", got, a, 1e-11)
+        got = g(lambda: projective.affine_coords(Y.copy(), chart_index=c))
+        if got is not None:
+            judge("module affine_coords(row)", got, a, 1e-11)
+        # column layout needs >= 2 axes
+        if shape:
+            Yc = np.swapaxes(Y, -1, -2)
+            got = g(lambda: projective.affine_coords(Yc.copy(), chart_index=c, column_vectors=True))
+            if got is not None:
                 judge("module affine_coords(column)", np.swapaxes(got, -1, -2), a, 1e-11)
-                ac = np.swapaxes(a, -1, -2)
-                pc = projective.projective_coords(ac.copy(), chart_index=c, column_vectors=True)
-                judge("projective_coords(column)", np.swapaxes(pc, -1, -2), X, 0.0)
-            judge("projective_coords(row)", projective.projective_coords(a.copy(), chart_index=c), X, 0.0)
-            # membership and change of chart
-            inn = Q.in_affine_chart(c)
-            mon.require(bool(np.all(inn)), "chart-roundtrip/in_affine_chart/%s" % field,
-                        "a point built in chart %d is reported outside it" % c, case)
-            for c2 in range(d + 1):
-                if c2 == c:
-                    continue
-                member = np.asarray(Q.in_affine_chart(c2))
-                want_member = _nonzero(np.delete(_embed(a, c), c2, axis=-1)[..., 0] * 0 + _embed(a, c)[..., c2])
-                mon.require(bool(np.array_equal(member, want_member)),
-                            "chart-roundtrip/in_affine_chart/%s" % field,
-                            "membership in chart %d differs from (coordinate != 0)" % c2, case)
-                if np.all(want_member):
-                    b2 = Q.affine_coords(chart_index=c2)
+            ac = np.swapaxes(a, -1, -2)
+            pc = projective.projective_coords(ac.copy(), chart_index=c, column_vectors=True)
+            judge("projective_coords(column)", np.swapaxes(pc, -1, -2), X, 0.0)
+        judge("projective_coords(row)", projective.projective_coords(a.copy(), chart_index=c), X, 0.0)
+        # membership and change of chart
+        inn = Q.in_affine_chart(c)
+        mon.require(bool(np.all(inn)), "chart-roundtrip/in_affine_chart/%s" % field,
+                    "a point built in chart %d is reported outside it" % c, case)
+        E = _embed(a, c)
+        for c2 in range(d + 1):
+            if c2 == c:
+                continue
+            member = np.asarray(Q.in_affine_chart(c2))
+            want_member = _nonzero(E[..., c2])
+            mon.require(bool(np.array_equal(member, want_member)),
+                        "chart-roundtrip/in_affine_chart/%s" % field,
+                        "membership in chart %d differs from (coordinate != 0)" % c2, case)
+            if np.all(want_member):
+                b2 = g(lambda: Q.affine_coords(chart_index=c2))
+                if b2 is not None:
                     # independent change of chart: divide own embedding
-                    E = _embed(a, c)
                     want = np.delete(E / E[..., c2:c2 + 1], c2, axis=-1)
                     judge("change of chart", b2, want, 1e-10)
-            # automatic chart
-            aff, used = projective.affine_coords(Y.copy())
-            E = _embed(a, c)
+        # automatic chart
+        res = g(lambda: projective.affine_coords(Y.copy()))
+        if res is not None:
+            aff, used = res
             judge("automatic chart", aff, np.delete(E / E[..., int(used):int(used) + 1], int(used), axis=-1), 1e-10)
-        except Exception as e:
-            if not _lib_exc_from(e, "projective.affine_coords"):
-                raise
-            # recorded by the postcondition (GeometryError on a valid point)
     # points outside a chart must be rejected, exactly those
     c = int(rng.integers(0, d + 1))
     a = rand_affine(rng, (4,), d, field)
@@ -752,6 +771,16 @@ def wl_charts(run, rng, idx):
     member = np.asarray(projective.Point(X.copy()).in_affine_chart(c2))
     mon.require(bool(not member[1]), "chart-roundtrip/in_affine_chart/%s" % field,
                 "a point with zero chart coordinate is reported inside the chart", run.current_case)
+    # no standard chart contains all of these points: automatic choice must refuse
+    Z = np.eye(d + 1)[: 2 + idx % d] * rand_scalars(rng, (1,), "negative")
+    if field in ("complex", "imaginary-chart"):
+        Z = Z * 1j
+    run.current_case = {"workload": "charts", "class": "no-common-chart", "points": Z}
+    try:
+        projective.affine_coords(Z.copy())
+    except Exception as e:
+        if not _lib_exc_from(e, "projective.affine_coords"):
+            raise
     if idx < 3:
         run.sample({"dimension": d, "field": field, "shape": list(shape), "scalar": skind})
 
@@ -802,8 +831,9 @@ def wl_maps(run, rng, idx):
     N = d + 1
     nrm = rng.normal(size=N) * 10 ** rng.uniform(-1, 1)
     if idx % 4 == 0:
-        nrm = np.round(nrm * 3) + (np.arange(N) == 0)     # integer normals
-        nrm = nrm.astype(float)
+        nrm = rng.integers(-4, 5, size=N).astype(float)   # integer normals
+        if not np.any(nrm):
+            nrm[int(rng.integers(0, N))] = 1.0
     case = {"workload": "maps", "class": "hyperplane", "normal": nrm}
     run.current_case = case
     run.note_class("hyperplane", N, idx % 4 == 0)
@@ -838,9 +868,9 @@ def wl_intersect(run, rng, idx):
     v = idx // len(AB)
     cplx = v % 2 == 1
     mode = ["elementwise", "pairwise"][(v // 2) % 2]
-    bshape = [(), (3,), (2, 2)][(v // 4) % 3]
+    bshape = [(), (3,), (2, 2)][(idx + v) % 3]
     if mode == "pairwise":
-        ba, bb = bshape, [(2,), (), (1, 3)][(v // 4) % 3]
+        ba, bb = bshape, [(2,), (), (1, 3)][(idx + v // 4) % 3]
     else:
         ba = bb = bshape
     for attempt in range(50):
@@ -859,7 +889,7 @@ def wl_intersect(run, rng, idx):
         run.monitor("intersect").diag("generator found no transverse pair")
         return
     # hostile: rescale spanning vectors by huge / negative / complex scalars
-    A = A * rand_scalars(rng, ba + (a, 1), ["positive", "negative", "huge", "tiny"][v % 4])
+    A = A * rand_scalars(rng, ba + (a, 1), ["positive", "negative"][v % 2])
     if cplx:
         B = B * rand_scalars(rng, bb + (b, 1), "complex")
     run.current_case = {"workload": "intersect", "n": n, "a": a, "b": b, "complex": cplx, "mode": mode,
@@ -870,32 +900,35 @@ def wl_intersect(run, rng, idx):
     try:
         SA.intersect(other, broadcast=mode)
     except Exception as e:
-        if not _lib_exc_from(e, "projective.intersect"):
-            # exceptions raised below intersect are recorded by its postcondition too
-            from .. import core
-            tbs = traceback.extract_tb(e.__traceback__)
-            if not any(fs.name == "intersect" for fs in tbs):
-                raise
+        # exceptions raised in or below intersect are recorded by its postcondition
+        if not any(fs.name == "intersect" for fs in traceback.extract_tb(e.__traceback__)):
+            raise
     if idx < 2:
         run.sample({"n": n, "a": a, "b": b, "complex": cplx, "mode": mode})
 
 
 def rand_spectrum(rng, n, kind):
-    """n eigenvalues with pairwise gaps >= 0.25 max|.|: real, conjugate pairs, complex."""
-    for attempt in range(2000):
-        if kind == "real":
-            w = rng.uniform(-3, 3, size=n)
-        elif kind == "conjugate":
-            m = n // 2
-            z = rng.uniform(-2, 2, size=m) + 1j * rng.uniform(0.6, 2, size=m)
-            w = np.concatenate([z, np.conj(z), rng.uniform(-3, 3, size=n - 2 * m)])
-        else:
-            w = rng.uniform(-2, 2, size=n) + 1j * rng.uniform(-2, 2, size=n)
-        mx = np.max(np.abs(w))
-        g = np.abs(w[:, None] - w[None, :]) + np.eye(n) * 1e9
-        if np.min(g) >= 0.3 * mx and np.min(np.abs(w)) > 0.1:
-            return w
-    raise RuntimeError("no spectrum")
+    """n eigenvalues with pairwise gaps >= 0.25 max|.| (constructive: jittered
+    grids): real, real with conjugate pairs, complex."""
+    M = 10 ** rng.uniform(-0.5, 0.5)
+    jit = lambda size: rng.uniform(-0.08, 0.08, size=size)
+    if kind == "real":
+        base = np.linspace(-1, 1, n) if n > 1 else np.array([1.0])
+        w = base + jit(n) * (2.0 / max(n - 1, 1))
+        w = w[rng.permutation(n)] + 0j
+    elif kind == "conjugate":
+        m = n // 2
+        grid = [complex(re, im) for re in (-1.0, 0.0, 1.0) for im in (0.8, 1.6)]
+        z = np.array([grid[i] for i in rng.permutation(len(grid))[:m]]) + jit(m) + 1j * jit(m)
+        rest = np.array([2.2 * rng.choice([-1.0, 1.0])])[: n - 2 * m] + 0j
+        w = np.concatenate([z, np.conj(z), rest])
+    else:
+        grid = [complex(re, im) for re in (-1.0, 0.0, 1.0) for im in (-1.0, 0.0, 1.0) if (re, im) != (0.0, 0.0)]
+        w = np.array([grid[i] for i in rng.permutation(len(grid))[:n]]) + jit(n) + 1j * jit(n)
+    w = M * w
+    g = np.abs(w[:, None] - w[None, :]) + np.eye(n) * 1e9
+    assert np.min(g) >= 0.25 * np.max(np.abs(w)), (kind, n, w)
+    return w
 
 
 def real_block_matrix(w):
@@ -908,7 +941,7 @@ def real_block_matrix(w):
         if used[i]:
             continue
         if abs(w[i].imag) > 0:
-            j = [jj for jj in range(n) if not used[jj] and jj != i and abs(w[jj] - np.conj(w[i])) < 1e-12][0]
+            j = [jj for jj in range(n) if not used[jj] and jj != i and abs(w[jj] - np.conj(w[i])) < 1e-12 * (1 + abs(w[i]))][0]
             used[i] = used[j] = True
             D[k:k + 2, k:k + 2] = [[w[i].real, -w[i].imag], [w[i].imag, w[i].real]]
             k += 2
@@ -927,10 +960,12 @@ def wl_eigen(run, rng, idx):
     colv = (idx // 45) % 2 == 0
     mats = np.empty(batch + (n, n), dtype=complex if kind == "complex" else float)
     specs = {}
+    shared = None
     for ix in (np.ndindex(*batch) if batch else [()]):
-        if ix == (np.ndindex(*batch).__next__() if batch else ()) or idx % 2:
+        if shared is None or idx % 2:
             w = rand_spectrum(rng, n, kind)
-            shared = w
+            if shared is None:
+                shared = w
         else:
             w = shared                       # same spectrum in every unit
         S = lin.rand_cond_matrix(rng, n, 20.0, complex_=(kind == "complex"))
@@ -976,6 +1011,6 @@ def wl_eigen(run, rng, idx):
 WORKLOADS = [
     Workload("charts", wl_charts, quick=480, thorough=9600),
     Workload("maps", wl_maps, quick=120, thorough=2400),
-    Workload("intersect", wl_intersect, quick=2 * len(AB) * 6 // 3, thorough=len(AB) * 12 * 4),
+    Workload("intersect", wl_intersect, quick=4 * len(AB), thorough=48 * len(AB)),
     Workload("eigen", wl_eigen, quick=180, thorough=3600),
 ]
